@@ -15,6 +15,8 @@ import Wharf.Model.Wire
 import Wharf.Model.FS
 import Wharf.Model.TreeValidate
 import Wharf.Model.SafeKeeper
+import Wharf.Model.Archive
+import Wharf.Model.Heal
 
 open Wharf Wharf.Util
 
@@ -424,6 +426,41 @@ def doPatchSk (args : List String) : IO String := do
     return showOutcomeRes (Patch.patch E msgs)
   | _ => return "bad-op"
 
+def showNode : FS.Node → String
+  | .dir => "d"
+  | .file d => s!"f {d.length} {fnvList d}"
+  | .symlink d => s!"l {d}"
+
+def showTree (t : FS.Tree) : List String :=
+  (t.listing.map fun (p, n) => "/".intercalate p ++ " " ++ showNode n)
+
+/-- `extract <listing>`: extract the archive of the listed tree into an empty tree; `same` or the difference -/
+def doExtract (args : List String) : IO String := do
+  match args with
+  | [lf] =>
+    let l := (← readListing lf).map fun (_, p, n) => (p, n)
+    -- archive order: sorted by path (filepath.Walk)
+    let sorted := (FS.Tree.mk l).listing
+    match Archive.extractAll {} (Archive.archiveOf sorted) with
+    | .error e => return s!"extract error {repr e}"
+    | .ok t =>
+      let a := showTree t
+      let b := showTree (FS.Tree.mk l)
+      if a == b then return "same" else return s!"differs: got {a} want {b}"
+  | _ => return "bad-op"
+
+/-- `heal <bs> <maxSize> <signed listing> <disk listing>`: tree after validate+heal -/
+def doHeal (args : List String) : IO String := do
+  match args with
+  | [bsS, mxS, sf, df] =>
+    let s := signedOfListing (← readListing sf)
+    let t := treeOfListing (← readListing df)
+    match Heal.validateAndHeal (parseNat bsS) (parseNat mxS) s t with
+    | .ok t' => return "ok " ++ ";".intercalate (showTree t')
+    | .err _ => return "err"
+    | .panic p => return s!"panic {p}"
+  | _ => return "bad-op"
+
 def dispatch (line : String) : IO String := do
   match line.trimAscii.toString.splitOn " " with
   | "c11" :: args => doC11 args
@@ -436,6 +473,8 @@ def dispatch (line : String) : IO String := do
   | "c13" :: args => doC13 args
   | "validate" :: args => doValidate args
   | "patchsk" :: args => doPatchSk args
+  | "extract" :: args => doExtract args
+  | "heal" :: args => doHeal args
   | "c13parse" :: args => doC13Parse args
   | "analyze" :: args => doAnalyze args
   | "optimize" :: args => doOptimize args
